@@ -144,6 +144,6 @@ def fill_convexhull(bwimg):
     canvas = np.zeros_like(bwimg)
     black = (1 if bwimg.dtype == np.bool_ else 255)
     fill_polygon(points, canvas, black)
-    canvas[bwimg] = black
+    canvas[np.asarray(bwimg, dtype=bool)] = black
     return canvas
 
